@@ -43,7 +43,7 @@ def main():
         shutil.copy(os.path.join(src, demo), f"/tmp/eval-{name}.{demo}")
         text = open(f"/tmp/eval-{name}.{demo}").read()
         # demos were written against the author's worktree path: retarget
-        m = re.findall(r"/tmp/mut[234]?/\w+/wt", text)
+        m = re.findall(r"/tmp/mut[2345]?/\w+/wt", text)
         for old in set(m):
             text = text.replace(old, wt)
         text = text.replace('os.path.normpath(os.path.join(HERE, "..", "..", "wt"))', repr(wt))
